@@ -1,7 +1,892 @@
 package c19
 
-import "verifharness/core"
+import (
+	"crypto/sha256"
+	"fmt"
+	"math/rand"
+	"os"
+	"path/filepath"
+	"regexp"
+	"sort"
+	"strconv"
+	"strings"
+	"sync"
+	"time"
 
-// Run generates the cases of C19.
+	"verifharness/core"
+
+	"github.com/evolbioinfo/gotree/cmd"
+	"github.com/evolbioinfo/gotree/tree"
+	"github.com/spf13/cobra"
+	"github.com/spf13/pflag"
+)
+
+// ---------------------------------------------------------------- table cases
+
+func b2s(b bool) string {
+	if b {
+		return "true"
+	}
+	return "false"
+}
+
+func rowFields(r Row) []string {
+	return []string{r.Path, r.Flag, r.Short, b2s(r.Persistent), strconv.Itoa(r.Var), r.Type, r.Def, r.Cur}
+}
+
+// encRow: the 8 fields as a StrList, followed by ";"
+func encRow(r Row) string { return core.StrList(rowFields(r)) + ";" }
+
+func encRows(rs []Row) string {
+	var b strings.Builder
+	for _, r := range rs {
+		b.WriteString(encRow(r))
+	}
+	return b.String()
+}
+
+// comparableClaim: the default claimed by the free text of the help sentence, normalised the way
+// pflag prints a value of the flag's type; "" when the text claims nothing that can be compared
+// (strings and loose wording such as "default : normal" on a boolean are not compared).
+func comparableClaim(r Row) string {
+	if r.UsageDef == "" {
+		return ""
+	}
+	switch r.Type {
+	case "bool":
+		if v, err := strconv.ParseBool(r.UsageDef); err == nil {
+			return strconv.FormatBool(v)
+		}
+	case "int", "int64":
+		if v, err := strconv.ParseInt(r.UsageDef, 10, 64); err == nil {
+			return strconv.FormatInt(v, 10)
+		}
+	case "float64":
+		if v, err := strconv.ParseFloat(r.UsageDef, 64); err == nil {
+			return strconv.FormatFloat(v, 'g', -1, 64)
+		}
+	}
+	return ""
+}
+
+func emitRow(c *core.Ctx, table []Row, i int) {
+	r := table[i]
+	var peers []Row
+	for j, q := range table {
+		if j != i && q.Var == r.Var {
+			peers = append(peers, q)
+		}
+	}
+	// the inherited (persistent, ancestor's) flags of the same name that this flag hides for its command
+	var shadowed []Row
+	for _, q := range table {
+		if q.Persistent && q.Flag == r.Flag && q.Path != r.Path && strings.HasPrefix(r.Path+" ", q.Path+" ") {
+			shadowed = append(shadowed, q)
+		}
+	}
+	e := core.Escape
+	c.Emit("C19.row", e(r.Path), e(r.Flag), e(r.Short), b2s(r.Persistent), strconv.Itoa(r.Var), e(r.Type), e(r.Def), e(r.Cur),
+		e(comparableClaim(r)), encRows(peers), encRows(shadowed))
+}
+
+func emitTable(c *core.Ctx, table []Row) {
+	c.Emit("C19.table", encRows(table))
+}
+
+// emitOrder: the rows in the order their registrations ran (initorder.go), for the model to run.
+func emitOrder(c *core.Ctx, table []Row) {
+	ordered, unplaced, problems := orderedTable(c.Repo, table)
+	if len(problems) > 12 {
+		problems = append(problems[:12], fmt.Sprintf("… %d more", len(problems)-12))
+	}
+	c.Emit("C19.order", encRows(ordered), encRows(unplaced), core.StrList(problems))
+}
+
+func findRow(table []Row, path, flag string) int {
+	for i, r := range table {
+		if r.Path == path && r.Flag == flag {
+			return i
+		}
+	}
+	return -1
+}
+
+// ---------------------------------------------------------------- end-to-end cases
+
+// tmpl is a runnable invocation of one command.  Placeholders {name} in Args are replaced by
+// the path of the input file of that name; the main input goes to stdin (so that the -i/--input
+// option itself can be tested: omitted and "stdin" both read the standard input).
+type tmpl struct {
+	Name  string   // unique
+	Path  string   // command path without the leading "gotree "
+	Args  []string // options with non-default values and positional arguments
+	Stdin string   // name of the input sent on stdin ("" = nothing)
+	Skip  []string // flags that cannot be compared in this template
+	Base  string   // name of the template this one must give another outcome than (it only adds options with non-default values)
+}
+
+type inputs map[string]string // name -> content
+
+func setSupports(t *tree.Tree, r *rand.Rand) {
+	for _, e := range t.Edges() {
+		if !e.Right().Tip() {
+			e.SetSupport(float64(r.Intn(101)) / 100)
+		}
+	}
+}
+
+func yule(r *rand.Rand, n int, rooted bool) *tree.Tree {
+	rand.Seed(r.Int63())
+	t, err := tree.RandomYuleBinaryTree(n, rooted)
+	if err != nil {
+		panic(err)
+	}
+	setSupports(t, r)
+	return t
+}
+
+// makeInputs: variant 0 is fixed; other variants draw the trees.
+func makeInputs(variant int64) inputs {
+	in := inputs{}
+	if variant == 0 {
+		in["tree"] = "((Tip0:0.1234567,Tip1:0.2)0.9123456:0.0512345,(Tip2:0.3000049,(Tip3:0.1,Tip4:0.15)0.6:0.02)0.8004:0.07,((Tip5:0.2,Tip6:0.25)0.95:0.3,Tip7:0.12)0.4:0.01);\n"
+		in["tree2"] = "((Tip0:0.1,Tip2:0.2)0.7:0.06,(Tip1:0.3,(Tip3:0.1,Tip4:0.15)0.5:0.03)0.8:0.07,((Tip5:0.2,Tip7:0.25)0.9:0.2,Tip6:0.12)0.3:0.04);\n"
+		in["rooted"] = "((Tip0:0.1,Tip1:0.2)0.9:0.05,((Tip2:0.3,Tip3:0.1)0.7:0.2,(Tip4:0.3,(Tip5:0.2,(Tip6:0.1,Tip7:0.4)0.5:0.1)0.6:0.2)0.65:0.05)0.8:0.1);\n"
+		in["trees"] = in["tree"] + in["tree2"] +
+			"((Tip0:0.1,Tip1:0.2)0.9:0.05,(Tip2:0.3,(Tip3:0.1,Tip4:0.15)0.6:0.02)0.8:0.07,((Tip5:0.2,Tip7:0.25)0.95:0.3,Tip6:0.12)0.4:0.01);\n" +
+			"((Tip0:0.1,Tip1:0.2)0.9:0.05,(Tip3:0.3,(Tip2:0.1,Tip4:0.15)0.6:0.02)0.8:0.07,((Tip5:0.2,Tip6:0.25)0.95:0.3,Tip7:0.12)0.4:0.01);\n" +
+			"((Tip0:0.1,Tip1:0.2)0.9:0.05,(Tip2:0.3,(Tip3:0.1,Tip4:0.15)0.6:0.02)0.8:0.07,((Tip5:0.2,Tip6:0.25)0.95:0.3,Tip7:0.12)0.4:0.01);\n"
+	} else {
+		r := rand.New(rand.NewSource(variant))
+		n := 8 + r.Intn(5)
+		in["tree"] = yule(r, n, false).Newick() + "\n"
+		in["tree2"] = yule(r, n, false).Newick() + "\n"
+		in["rooted"] = yule(r, n, true).Newick() + "\n"
+		ts := in["tree"] + in["tree2"]
+		for i := 0; i < 3; i++ {
+			if r.Intn(2) == 0 {
+				ts += in["tree"]
+			} else {
+				ts += yule(r, n, false).Newick() + "\n"
+			}
+		}
+		in["trees"] = ts
+	}
+	// the remaining inputs refer to Tip0..Tip7 only, which every variant has
+	in["other"] = "((X0:0.1,X1:0.2)0.9:0.05,(X2:0.3,X3:0.1)0.7:0.2);\n"
+	in["otherunrooted"] = "((X0:0.1,X1:0.2)0.9:0.05,X2:0.3,X3:0.1);\n"
+	in["commented"] = "((Tip0[c0]:0.1[e0],Tip1:0.2)n1[cn1]:0.05[e1],(Tip2:0.3,Tip3:0.1)n2:0.2[e2],Tip4:0.3);\n"
+	in["single"] = "((Tip0:0.1,Tip1:0.2):0.05,((Tip2:0.3):0.1,Tip3:0.1):0.2,Tip4:0.3);\n"
+	in["multif"] = "((Tip0:0.1,Tip1:0.2,Tip2:0.1)0.9:0.05,(Tip3:0.3,Tip4:0.1,Tip5:0.2)0.7:0.2,Tip6:0.3,Tip7:0.1);\n"
+	in["named"] = "((Tip0:0.1,Tip1:0.2)clade1:0.05,(Tip2:0.3,(Tip3:0.1,Tip4:0.15)clade3:0.02)clade2:0.07,((Tip5:0.2,Tip6:0.25)clade5:0.3,Tip7:0.12)clade4:0.01);\n"
+	in["tipfile"] = "Tip0\nTip1\nTip2\n"
+	in["tipfile2"] = "Tip3\nTip4\n"
+	in["mapfile"] = "Tip0\tAlpha\nTip1\tBeta\nTip5\tGamma\n"
+	in["annotmap"] = "cladeA:Tip3,Tip4\ncladeB:Tip0\n"
+	in["states"] = "Tip0,A\nTip1,A\nTip2,B\nTip3,B\nTip4,A\nTip5,C\nTip6,C\nTip7,B\nTip8,A\nTip9,C\nTip10,B\nTip11,A\nTip12,C\n"
+	in["brfile"] = "clade3\nclade5\n"
+	in["idgroups"] = "Tip0,Tip0b,Tip0c\nTip5,Tip5b\n"
+	var fa, ph strings.Builder
+	seqs := []string{"ACGTACGTAC", "ACGTACGTAA", "ACGAACGTAC", "ACGAACGTCC", "ACGAACGTCA", "TCGTACGGAC", "TCGTACGGAA", "TCGTACGTAC", "ACGTACGTAC", "ACGTACGTAC", "ACGTACGTAC", "ACGTACGTAC", "ACGTACGTAC"}
+	fmt.Fprintf(&ph, "   %d   %d\n", len(seqs), len(seqs[0]))
+	for i, s := range seqs {
+		fmt.Fprintf(&fa, ">Tip%d\n%s\n", i, s)
+		fmt.Fprintf(&ph, "Tip%d  %s\n", i, s)
+	}
+	in["fullnamed"] = "((Tip0:0.1,Tip1:0.2)n1:0.05,(Tip2:0.3,Tip3:0.1)n2:0.2,Tip4:0.3)root;\n"
+	in["fastanodes"] = ">Tip0\nACGTACGTAC\n>Tip1\nACGTACGTAA\n>Tip2\nACGAACGTAC\n>Tip3\nACGAACGTCC\n>Tip4\nTCGAACGTCA\n>n1\nACGTACGTAC\n>n2\nACGAACGTAC\n>root\nACGAACGTAC\n"
+	in["phylipnodes"] = "   8   10\nTip0  ACGTACGTAC\nTip1  ACGTACGTAA\nTip2  ACGAACGTAC\nTip3  ACGAACGTCC\nTip4  TCGAACGTCA\nn1  ACGTACGTAC\nn2  ACGAACGTAC\nroot  ACGAACGTAC\n"
+	in["fasta"] = fa.String()
+	in["phylip"] = ph.String()
+	return in
+}
+
+// templates: at least one per runnable command that needs no network.
+func templates() []tmpl {
+	T := func(name, path string, stdin string, args ...string) tmpl {
+		return tmpl{Name: name, Path: path, Stdin: stdin, Args: args}
+	}
+	B := func(base string, t tmpl) tmpl { t.Base = base; return t }
+	return []tmpl{
+		T("stats", "stats", "tree"),
+		T("stats-edges", "stats edges", "tree"),
+		T("stats-nodes", "stats nodes", "tree"),
+		T("stats-tips", "stats tips", "tree"),
+		T("stats-rooted", "stats rooted", "rooted"),
+		T("stats-splits", "stats splits", "tree"),
+		T("stats-mono-args", "stats monophyletic", "tree", "Tip3", "Tip4"),
+		T("stats-mono-file", "stats monophyletic", "tree", "-l", "{tipfile2}"),
+		T("consensus", "compute consensus", "trees"),
+		B("consensus", T("consensus-strict", "compute consensus", "trees", "-f", "1")),
+		T("setmin", "brlen setmin", "tree"),
+		B("setmin", T("setmin-l", "brlen setmin", "tree", "-l", "0.11")),
+		T("brlen-add", "brlen add", "tree"),
+		B("brlen-add", T("brlen-add-l", "brlen add", "tree", "-l", "0.5")),
+		T("brlen-clear", "brlen clear", "tree"),
+		T("brlen-cut", "brlen cut", "tree"),
+		B("brlen-cut", T("brlen-cut-l", "brlen cut", "tree", "-l", "0.15")),
+		T("brlen-round", "brlen round", "tree"),
+		B("brlen-round", T("brlen-round-p", "brlen round", "tree", "-p", "1")),
+		T("brlen-scale", "brlen scale", "tree"),
+		B("brlen-scale", T("brlen-scale-f", "brlen scale", "tree", "-f", "2")),
+		T("brlen-set", "brlen set", "tree"),
+		B("brlen-set", T("brlen-set-l", "brlen set", "tree", "-l", "0.3")),
+		T("brlen-setrand", "brlen setrand", "tree", "--seed", "1"),
+		T("divide", "divide", "trees"),
+		B("divide", T("divide-o", "divide", "trees", "-o", "part")),
+		T("annotate-map", "annotate", "tree", "-m", "{annotmap}"),
+		B("annotate-map", T("annotate-map-comment", "annotate", "tree", "-m", "{annotmap}", "--comment")),
+		T("annotate-tree", "annotate", "named", "-i", "{tree}"),
+		T("merge", "merge", "other", "-i", "{rooted}"),
+		T("compare-trees", "compare trees", "tree", "-c", "{trees}"),
+		B("compare-trees", T("compare-trees-l", "compare trees", "tree", "-c", "{trees}", "-l")),
+		B("compare-trees", T("compare-trees-w", "compare trees", "tree", "-c", "{trees}", "--weighted")),
+		B("compare-trees", T("compare-trees-rf", "compare trees", "tree", "-c", "{trees}", "--rf")),
+		T("compare-edges", "compare edges", "tree", "-c", "{tree2}"),
+		T("compare-edges-m", "compare edges", "tree", "-c", "{tree2}", "-m"),
+		T("compare-tips", "compare tips", "tree", "-c", "{multif}"),
+		T("compare-tips-f", "compare tips", "tree", "-f", "{tipfile}"),
+		T("collapse-length", "collapse length", "tree"),
+		B("collapse-length", T("collapse-length-l", "collapse length", "tree", "-l", "0.06")),
+		T("collapse-support", "collapse support", "tree"),
+		B("collapse-support", T("collapse-support-s", "collapse support", "tree", "-s", "0.7")),
+		T("collapse-depth", "collapse depth", "tree"),
+		B("collapse-depth", T("collapse-depth-m", "collapse depth", "tree", "-m", "2", "-M", "3")),
+		T("collapse-single", "collapse single", "single"),
+		T("collapse-name", "collapse name", "named", "-b", "{brfile}"),
+		T("collapse-clade", "collapse clade", "tree", "-n", "clade", "Tip3", "Tip4"),
+		T("collapse-clade-l", "collapse clade", "tree", "-n", "clade", "-l", "{tipfile2}"),
+		T("comment-clear", "comment clear", "commented"),
+		T("comment-transfer", "comment transfer", "commented"),
+		T("bipartitiontree", "compute bipartitiontree", "tree", "Tip3", "Tip4"),
+		T("bipartitiontree-f", "compute bipartitiontree", "tree", "-f", "{tipfile2}"),
+		T("edgetrees", "compute edgetrees", "tree"),
+		T("classical", "compute support classical", "tree", "-b", "{trees}"),
+		T("fbp", "compute support fbp", "tree", "-b", "{trees}"),
+		T("tbe", "compute support tbe", "tree", "-b", "{trees}"),
+		T("booster", "compute support booster", "tree", "-b", "{trees}"),
+		T("tbe-raw", "compute support tbe", "tree", "-b", "{trees}", "--moved-taxa", "--dist-cutoff", "0.5"),
+		T("roccurve", "compute roccurve", "trees", "-r", "{tree}"),
+		T("mutations", "compute mutations", "fullnamed", "-a", "{fastanodes}"),
+		B("mutations", T("mutations-eems", "compute mutations", "fullnamed", "-a", "{fastanodes}", "--eems")),
+		T("mutations-phylip", "compute mutations", "fullnamed", "-a", "{phylipnodes}", "-p"),
+		T("acr", "acr", "tree", "--states", "{states}"),
+		T("acr-deltran", "acr", "tree", "--states", "{states}", "--algo", "deltran"),
+		T("asr", "asr", "tree", "-a", "{fasta}"),
+		T("asr-phylip", "asr", "tree", "-a", "{phylip}", "-p"),
+		T("draw-text", "draw text", "tree"),
+		B("draw-text", T("draw-text-w", "draw text", "tree", "-w", "60")),
+		T("draw-svg", "draw svg", "tree"),
+		B("draw-svg", T("draw-svg-r", "draw svg", "tree", "-r")),
+		T("draw-png", "draw png", "tree"),
+		T("draw-cyjs", "draw cyjs", "tree"),
+		T("gen-yule", "generate yuletree", "", "--seed", "1"),
+		B("gen-yule", T("gen-yule-l", "generate yuletree", "", "--seed", "1", "-l", "5")),
+		T("gen-uniform", "generate uniformtree", "", "--seed", "1"),
+		T("gen-balanced", "generate balancedtree", "", "--seed", "1"),
+		T("gen-caterpillar", "generate caterpillartree", "", "--seed", "1"),
+		T("gen-star", "generate startree", "", "--seed", "1"),
+		T("gen-topologies", "generate topologies", "", "--seed", "1", "-l", "5"),
+		B("gen-yule", T("gen-yule-rooted", "generate yuletree", "", "--seed", "1", "-r", "-n", "2")),
+		T("graft", "graft", "tree", "-c", "{other}", "-l", "Tip3"),
+		T("labels", "labels", "named"),
+		B("labels", T("labels-internal", "labels", "named", "--internal")),
+		T("ltt", "ltt", "rooted"),
+		T("matrix", "matrix", "tree"),
+		B("matrix", T("matrix-boot", "matrix", "tree", "-m", "boot")),
+		T("matrix-avg", "matrix", "trees", "--avg"),
+		T("nni", "nni", "tree"),
+		T("prune-args", "prune", "tree", "Tip0", "Tip1"),
+		T("prune-file", "prune", "tree", "-f", "{tipfile}"),
+		B("prune-args", T("prune-revert", "prune", "tree", "-r", "Tip0", "Tip1", "Tip2", "Tip3")),
+		T("prune-comp", "prune", "tree", "-c", "{multif}"),
+		T("prune-random", "prune", "tree", "--random", "3", "--seed", "1"),
+		T("reformat-newick", "reformat newick", "tree"),
+		T("reformat-nexus", "reformat nexus", "tree"),
+		B("reformat-nexus", T("reformat-nexus-t", "reformat nexus", "tree", "--translate")),
+		T("reformat-phyloxml", "reformat phyloxml", "tree"),
+		T("rename-map", "rename", "tree", "-m", "{mapfile}"),
+		B("rename-map", T("rename-map-r", "rename", "tree", "-m", "{mapfile}", "-r")),
+		T("rename-auto", "rename", "tree", "-a", "-m", "outmap.txt"),
+		B("rename-auto", T("rename-auto-l", "rename", "tree", "-a", "-m", "outmap.txt", "-l", "7")),
+		T("rename-regexp", "rename", "tree", "-e", "Tip(\\d+)", "-b", "Leaf$1"),
+		T("rename-internal", "rename", "named", "--internal", "--tips=false", "-e", "clade", "-b", "node"),
+		T("repopulate", "repopulate", "tree", "-g", "{idgroups}"),
+		T("reroot-midpoint", "reroot midpoint", "tree"),
+		T("reroot-outgroup", "reroot outgroup", "tree", "Tip3", "Tip4"),
+		T("reroot-outgroup-l", "reroot outgroup", "tree", "-l", "{tipfile2}"),
+		B("reroot-outgroup", T("reroot-outgroup-r", "reroot outgroup", "tree", "-r", "Tip3", "Tip4")),
+		T("resolve", "resolve", "multif", "--seed", "1"),
+		T("resolve-named", "resolve named", "multif", "--seed", "1"),
+		T("rotate-sort", "rotate sort", "tree"),
+		T("rotate-rand", "rotate rand", "tree", "--seed", "1"),
+		T("sample", "sample", "trees", "--seed", "1"),
+		B("sample", T("sample-n", "sample", "trees", "--seed", "1", "-n", "3")),
+		T("sample-replace", "sample", "trees", "--seed", "1", "-n", "7", "--replace"),
+		T("shuffletips", "shuffletips", "tree", "--seed", "1"),
+		T("subtree", "subtree", "named", "-n", "clade2"),
+		T("support-clear", "support clear", "tree"),
+		T("support-round", "support round", "tree"),
+		B("support-round", T("support-round-p", "support round", "tree", "-p", "1")),
+		T("support-scale", "support scale", "tree"),
+		B("support-scale", T("support-scale-f", "support scale", "tree", "-f", "100")),
+		T("support-setrand", "support setrand", "tree", "--seed", "1"),
+		T("unroot", "unroot", "rooted"),
+		T("version", "version", ""),
+	}
+}
+
+func findCmd(path string) *cobra.Command {
+	c := cmd.RootCmd
+	if path == "" {
+		return c
+	}
+	for _, w := range strings.Fields(path) {
+		var next *cobra.Command
+		for _, s := range c.Commands() {
+			if s.Name() == w {
+				next = s
+			}
+		}
+		if next == nil {
+			return nil
+		}
+		c = next
+	}
+	return c
+}
+
+// visibleFlags: the flags the command accepts — its local ones, its own persistent ones and the
+// persistent ones of its ancestors (nearest definition of a name wins, as cobra merges them).
+// Computed without c.InheritedFlags()/LocalFlags(), which would modify the flag sets.
+func visibleFlags(c *cobra.Command) []*pflag.Flag {
+	var out []*pflag.Flag
+	seen := map[string]bool{}
+	add := func(f *pflag.Flag) {
+		if !seen[f.Name] {
+			seen[f.Name] = true
+			out = append(out, f)
+		}
+	}
+	c.Flags().VisitAll(add)
+	for p := c; p != nil; p = p.Parent() {
+		p.PersistentFlags().VisitAll(add)
+	}
+	sort.Slice(out, func(i, j int) bool { return out[i].Name < out[j].Name })
+	return out
+}
+
+// given: names of the flags that occur in the arguments of the template
+func given(c *cobra.Command, args []string) map[string]bool {
+	g := map[string]bool{}
+	fl := visibleFlags(c)
+	for _, a := range args {
+		if strings.HasPrefix(a, "--") {
+			n := strings.TrimPrefix(a, "--")
+			if i := strings.Index(n, "="); i >= 0 {
+				n = n[:i]
+			}
+			g[n] = true
+		} else if strings.HasPrefix(a, "-") && len(a) >= 2 {
+			for _, f := range fl {
+				if f.Shorthand != "" && strings.ContainsRune(a[1:], rune(f.Shorthand[0])) {
+					g[f.Name] = true
+				}
+			}
+		}
+	}
+	return g
+}
+
+// explicitArg: how the documented default is passed on the command line.
+func explicitArg(f *pflag.Flag) string {
+	d := f.DefValue
+	switch f.Value.Type() {
+	case "stringSlice", "intSlice", "stringArray", "float64Slice", "boolSlice":
+		d = strings.TrimSuffix(strings.TrimPrefix(d, "["), "]")
+	}
+	return "--" + f.Name + "=" + d
+}
+
+type runner struct {
+	fixed bool // the fixed inputs, on which every template is a valid invocation
+	c     *core.Ctx
+	in    inputs
+	n     int
+	mu    sync.Mutex
+}
+
+func newRunner(c *core.Ctx, variant int64) *runner {
+	r := &runner{c: c, in: makeInputs(variant), fixed: variant == 0}
+	if abs, err := filepath.Abs(c.Tmp); err == nil {
+		c.Tmp = abs
+	}
+	return r
+}
+
+func (r *runner) close() {}
+
+// subst replaces the {name} placeholders by the path of the run's own copy of that input
+// (../in/name relative to the working directory of the run: a command that writes to one of its
+// input files — `rename --regexp … -m map` rewrites the map — must not disturb the other runs).
+func (r *runner) subst(args []string) []string {
+	out := make([]string, len(args))
+	for i, a := range args {
+		if strings.HasPrefix(a, "{") && strings.HasSuffix(a, "}") {
+			a = "../in/" + a[1:len(a)-1]
+		}
+		out[i] = a
+	}
+	return out
+}
+
+// logStamp: the date/time prefix of Go's log package (warnings of the library)
+var logStamp = regexp.MustCompile(`(?m)^\d{4}/\d{2}/\d{2} \d{2}:\d{2}:\d{2} `)
+
+func blob(b []byte) string {
+	if len(b) > 3000 {
+		return fmt.Sprintf("sha256:%x len=%d", sha256.Sum256(b), len(b))
+	}
+	return string(b)
+}
+
+// invoke runs the binary in a fresh working directory and returns the observable outcome:
+// exit class, stdout, and every file it left in the working directory.
+func (r *runner) invoke(words []string, args []string, stdin string) string {
+	r.mu.Lock()
+	r.n++
+	top := filepath.Join(r.c.Tmp, fmt.Sprintf("c19run_%d_%d", os.Getpid(), r.n))
+	r.mu.Unlock()
+	dir := filepath.Join(top, "cwd")
+	indir := filepath.Join(top, "in")
+	os.MkdirAll(dir, 0755)
+	os.MkdirAll(indir, 0755)
+	defer os.RemoveAll(top)
+	var used []string
+	for _, a := range args {
+		if strings.HasPrefix(a, "../in/") {
+			n := strings.TrimPrefix(a, "../in/")
+			if err := os.WriteFile(filepath.Join(indir, n), []byte(r.in[n]), 0644); err != nil {
+				panic(err)
+			}
+			used = append(used, n)
+		}
+	}
+	res := runIn(r.c, dir, r.in[stdin], 30*time.Second, append(append([]string{}, words...), args...)...)
+	var b strings.Builder
+	switch {
+	case res.Timeout:
+		b.WriteString("exit=timeout\n")
+	default:
+		fmt.Fprintf(&b, "exit=%d\n", res.Exit)
+	}
+	b.WriteString("stdout:\n" + blob([]byte(res.Stdout)))
+	ents, _ := os.ReadDir(dir)
+	var names []string
+	for _, e := range ents {
+		names = append(names, e.Name())
+	}
+	sort.Strings(names)
+	for _, n := range names {
+		c, _ := os.ReadFile(filepath.Join(dir, n))
+		b.WriteString("\nfile " + n + ":\n" + blob(c))
+	}
+	// an input file the command has rewritten is part of the outcome
+	sort.Strings(used)
+	for _, n := range used {
+		if c, err := os.ReadFile(filepath.Join(indir, n)); err != nil || string(c) != r.in[n] {
+			b.WriteString("\ninput in/" + n + " rewritten:\n" + blob(c))
+		}
+	}
+	if res.Exit != 0 || res.Stdout == "" && len(names) == 0 {
+		// a failing run: the error message is the observable output (paths of the scratch directories masked)
+		se := strings.ReplaceAll(res.Stderr, top, "<run>")
+		se = logStamp.ReplaceAllString(se, "<time> ")
+		b.WriteString("\nstderr:\n" + blob([]byte(se)))
+	}
+	return b.String()
+}
+
+type e2eCase struct {
+	joint  bool // every omitted option spelled out at once
+	t      tmpl
+	f      *pflag.Flag
+	owner  string
+	a0, a1 []string
+	o0, o1 string
+}
+
+// e2e runs the templates: for every flag visible to the command and not fixed by the template,
+// outcome(args) vs outcome(args + --flag=<DefValue>).
+func e2e(c *core.Ctx, r *runner, ts []tmpl, only func(t tmpl, flag string) bool) {
+	var cases []*e2eCase
+	base := map[string]*string{}
+	for _, t := range ts {
+		cc := findCmd(t.Path)
+		if cc == nil {
+			fmt.Fprintf(os.Stderr, "c19: template %s: no command %q\n", t.Name, t.Path)
+			continue
+		}
+		g := given(cc, t.Args)
+		skip := map[string]bool{}
+		for _, s := range t.Skip {
+			skip[s] = true
+		}
+		all := r.subst(t.Args)
+		nall := 0
+		for _, f := range visibleFlags(cc) {
+			if g[f.Name] || skip[f.Name] || f.Name == "help" {
+				continue
+			}
+			all = append(all, explicitArg(f))
+			nall++
+			if only != nil && !only(t, f.Name) {
+				continue
+			}
+			a0 := r.subst(t.Args)
+			a1 := append(append([]string{}, a0...), explicitArg(f))
+			cases = append(cases, &e2eCase{t: t, f: f, a0: a0, a1: a1})
+			base[t.Name] = new(string)
+		}
+		if nall >= 2 && (only == nil || only(t, "*")) {
+			cases = append(cases, &e2eCase{joint: true, t: t, a0: r.subst(t.Args), a1: all})
+			base[t.Name] = new(string)
+		}
+	}
+	// run: one base run per template, one explicit run per case; a few at a time
+	type job func()
+	var jobs []job
+	for _, t := range ts {
+		if p, ok := base[t.Name]; ok {
+			t, p := t, p
+			jobs = append(jobs, func() { *p = r.invoke(strings.Fields(t.Path), r.subst(t.Args), t.Stdin) })
+		}
+	}
+	for _, k := range cases {
+		k := k
+		jobs = append(jobs, func() { k.o1 = r.invoke(strings.Fields(k.t.Path), k.a1, k.t.Stdin) })
+	}
+	ch := make(chan job)
+	var wg sync.WaitGroup
+	for w := 0; w < 4; w++ {
+		wg.Add(1)
+		go func() {
+			defer wg.Done()
+			for j := range ch {
+				j()
+			}
+		}()
+	}
+	for _, j := range jobs {
+		ch <- j
+	}
+	close(ch)
+	wg.Wait()
+	e := core.Escape
+	mask := func(a []string) []string {
+		out := make([]string, len(a))
+		for i, s := range a {
+			out[i] = strings.ReplaceAll(s, "../in/", "in/")
+		}
+		return out
+	}
+	for _, k := range cases {
+		k.o0 = *base[k.t.Name]
+		if k.joint {
+			c.Emit("C19.e2e", e("gotree "+k.t.Path), "*", "all", "", k.t.Name,
+				core.StrList(mask(k.a0)), core.StrList(mask(k.a1)), e(k.o0), e(k.o1), b2s(r.fixed))
+			continue
+		}
+		c.Emit("C19.e2e", e("gotree "+k.t.Path), e(k.f.Name), e(k.f.Value.Type()), e(k.f.DefValue), k.t.Name,
+			core.StrList(mask(k.a0)), core.StrList(mask(k.a1)), e(k.o0), e(k.o1), b2s(r.fixed))
+	}
+}
+
+// emitReads: one case per (command, flag-bound variable the command's body reads without binding
+// it): the registrations of that variable, so that the driver can decide whether leaving out any
+// one other command would change what the reader finds there.
+func emitReads(c *core.Ctx, table []Row, only string) {
+	ordered, _, _ := orderedTable(c.Repo, table)
+	reads, _ := unboundReads(c.Repo)
+	e := core.Escape
+	for _, u := range reads {
+		if only != "" && only != u.Path+"/"+u.GoVar {
+			continue
+		}
+		var regs []Row
+		for _, r := range ordered {
+			if r.GoVar == u.GoVar {
+				regs = append(regs, r)
+			}
+		}
+		c.Emit("C19.reads", e(u.Path), e(u.GoVar), e(fmt.Sprintf("cmd/%s:%d", u.File, u.Line)), encRows(regs))
+	}
+}
+
+// emitRoundtrip: pflag convention the model relies on — a value is identified with the text
+// Value.String() prints, i.e. Set(DefValue) stores a value that prints as DefValue again.
+// Mutates the live flag (and restores it), so it runs after everything that reads the table.
+func emitRoundtrip(c *core.Ctx, r Row) {
+	f := r.flag
+	before := f.Value.String()
+	val := strings.TrimPrefix(explicitArg(f), "--"+f.Name+"=")
+	var errs, after string
+	panicked, msg := core.Safe(func() {
+		if err := f.Value.Set(val); err != nil {
+			errs = err.Error()
+		}
+		after = f.Value.String()
+	})
+	if panicked {
+		errs = "panic: " + msg
+	}
+	core.Safe(func() { f.Value.Set(strings.TrimSuffix(strings.TrimPrefix(before, "["), "]")) })
+	if r.Type != "stringSlice" && r.Type != "intSlice" {
+		core.Safe(func() { f.Value.Set(before) })
+	}
+	e := core.Escape
+	c.Emit("C19.roundtrip", e(r.Path), e(r.Flag), e(r.Type), e(r.Def), e(errs), e(after))
+}
+
+// emitHelp: `gotree <path> --help` of the built binary against the values the variables hold.
+func emitHelp(c *core.Ctx, table []Row, cc *cobra.Command) {
+	byFlag := map[*pflag.Flag]Row{}
+	for _, r := range table {
+		byFlag[r.flag] = r
+	}
+	var fl, rowsets strings.Builder
+	n := 0
+	for _, f := range visibleFlags(cc) {
+		r, ok := byFlag[f]
+		if !ok || f.Hidden {
+			continue
+		}
+		item := []string{r.Flag, r.Type, r.Cur, r.Path, r.Usage}
+		// the rows the model resolves the name from: every definition of the name on the way up
+		rs := []Row{r}
+		for p := cc; p != nil; p = p.Parent() {
+			if g := p.PersistentFlags().Lookup(f.Name); g != nil && g != f {
+				item = append(item, g.Usage)
+				if q, ok := byFlag[g]; ok {
+					rs = append(rs, q)
+				}
+			}
+		}
+		fl.WriteString(core.StrList(item) + ";")
+		rowsets.WriteString(encRows(rs) + "|")
+		n++
+	}
+	if n == 0 {
+		return
+	}
+	words := strings.Fields(cc.CommandPath())[1:]
+	dir := filepath.Join(c.Tmp, fmt.Sprintf("c19help_%d", os.Getpid()))
+	os.MkdirAll(dir, 0755)
+	defer os.RemoveAll(dir)
+	res := runIn(c, dir, "", 30*time.Second, append(words, "--help")...)
+	exit := strconv.Itoa(res.Exit)
+	if res.Timeout {
+		exit = "timeout"
+	}
+	c.Emit("C19.help", core.Escape(cc.CommandPath()), exit, core.Escape(res.Stdout), fl.String(), rowsets.String())
+}
+
+func allCommands() []*cobra.Command {
+	var out []*cobra.Command
+	var walk func(c *cobra.Command)
+	walk = func(c *cobra.Command) {
+		out = append(out, c)
+		subs := append([]*cobra.Command(nil), c.Commands()...)
+		sort.SliceStable(subs, func(i, j int) bool { return subs[i].Name() < subs[j].Name() })
+		for _, s := range subs {
+			walk(s)
+		}
+	}
+	walk(cmd.RootCmd)
+	return out
+}
+
+// effects: a template that only adds options with non-default values to another one must give
+// another outcome — otherwise the command does not read the variable the option sets (and then
+// "omitted = explicit default" holds vacuously, whatever value the command really uses).
+func effects(c *core.Ctx, r *runner, ts []tmpl, only string) {
+	byName := map[string]tmpl{}
+	for _, t := range ts {
+		byName[t.Name] = t
+	}
+	e := core.Escape
+	for _, t := range ts {
+		if t.Base == "" || only != "" && t.Name != only {
+			continue
+		}
+		b, ok := byName[t.Base]
+		if !ok {
+			panic("c19: template " + t.Name + ": unknown base " + t.Base)
+		}
+		ob := r.invoke(strings.Fields(b.Path), r.subst(b.Args), b.Stdin)
+		ot := r.invoke(strings.Fields(t.Path), r.subst(t.Args), t.Stdin)
+		c.Emit("C19.effect", e("gotree "+t.Path), t.Name, b.Name, core.StrList(t.Args), core.StrList(b.Args), e(ot), e(ob))
+	}
+}
+
+// Replay re-executes request lines on the current code (recorded outputs are ignored).
+//
+//	C19.table                       the whole table
+//	C19.order                       the table in the order the registrations ran (source order)
+//	C19.reads <path> <goVar>        a command body reading an option variable it does not bind
+//	C19.row <path> <flag>           one row
+//	C19.e2e <path> <flag> <type> <DefValue> <template>   one end-to-end comparison (variant 0 inputs);
+//	                                flag "*" = every option the template omits spelled out at once
+//	C19.effect <path> <template>    a template with non-default options against its base template
+//	C19.help <path>                 help text of one command
+//	C19.roundtrip <path> <flag>     Set(DefValue).String() of one flag
+func Replay(c *core.Ctx, lines []string) {
+	table := Table()
+	var r *runner
+	defer func() {
+		if r != nil {
+			r.close()
+		}
+	}()
+	for _, l := range lines {
+		f := strings.Split(l, "\t")
+		un := func(i int) string {
+			if i >= len(f) {
+				return ""
+			}
+			s, err := core.Unescape(f[i])
+			if err != nil {
+				return f[i]
+			}
+			return s
+		}
+		switch f[0] {
+		case "C19.table":
+			emitTable(c, table)
+		case "C19.order":
+			emitOrder(c, table)
+		case "C19.reads":
+			emitReads(c, table, un(1)+"/"+un(2))
+		case "C19.row":
+			i := findRow(table, un(1), un(2))
+			if i < 0 {
+				// the flag is gone: nothing to say about it (the table case covers what exists)
+				fmt.Fprintf(os.Stderr, "c19: replay: no flag %s --%s in the current tree\n", un(1), un(2))
+				continue
+			}
+			emitRow(c, table, i)
+		case "C19.roundtrip":
+			if i := findRow(table, un(1), un(2)); i >= 0 {
+				emitRoundtrip(c, table[i])
+			}
+		case "C19.help":
+			if c.Gotree == "" {
+				continue
+			}
+			if cc := findCmd(strings.TrimPrefix(strings.TrimPrefix(un(1), "gotree"), " ")); cc != nil {
+				emitHelp(c, table, cc)
+			}
+		case "C19.effect":
+			if c.Gotree == "" {
+				continue
+			}
+			if r == nil {
+				r = newRunner(c, 0)
+			}
+			effects(c, r, templates(), f[2])
+		case "C19.e2e":
+			if c.Gotree == "" {
+				continue
+			}
+			if r == nil {
+				r = newRunner(c, 0)
+			}
+			path, flag, name := strings.TrimPrefix(un(1), "gotree "), un(2), un(5)
+			var ts []tmpl
+			for _, t := range templates() {
+				if t.Path == path && (name == "" || t.Name == name) {
+					ts = append(ts, t)
+				}
+			}
+			if len(ts) == 0 {
+				fmt.Fprintf(os.Stderr, "c19: replay: no template %q for %q\n", name, path)
+				continue
+			}
+			e2e(c, r, ts, func(t tmpl, fl string) bool { return fl == flag })
+		}
+	}
+}
+
+// Run generates the cases of C19: the whole table (one case per row + one for the table), then
+// the end-to-end comparisons.
 func Run(c *core.Ctx) {
+	if c.Arg != "" && c.Arg != "race" {
+		Replay(c, core.ReadRequests(c.Arg))
+		return
+	}
+	table := Table()
+	emitTable(c, table)
+	emitOrder(c, table)
+	emitReads(c, table, "")
+	for i := range table {
+		emitRow(c, table, i)
+	}
+	if c.Gotree != "" {
+		for _, cc := range allCommands() {
+			emitHelp(c, table, cc)
+		}
+	}
+	defer func() {
+		for _, r := range table {
+			emitRoundtrip(c, r)
+		}
+	}()
+	if c.Gotree == "" {
+		return
+	}
+	ts := templates()
+	// quick: the fixed inputs; thorough: the fixed inputs for seed shard 0 and drawn inputs otherwise
+	variants := []int64{0}
+	if !c.Quick() {
+		variants = nil
+		if c.Seed%1000 == 0 {
+			variants = append(variants, 0)
+		}
+		for k := int64(1); k <= 6; k++ {
+			variants = append(variants, c.Seed*7919+k)
+		}
+	}
+	for _, v := range variants {
+		r := newRunner(c, v)
+		e2e(c, r, ts, nil)
+		if v == 0 {
+			effects(c, r, ts, "")
+		}
+		r.close()
+	}
+	reportCoverage(table, ts)
+}
+
+// reportCoverage tells (stderr) which runnable commands have no template.
+func reportCoverage(table []Row, ts []tmpl) {
+	have := map[string]bool{}
+	for _, t := range ts {
+		have[t.Path] = true
+	}
+	var missing []string
+	var walk func(c *cobra.Command)
+	walk = func(c *cobra.Command) {
+		if c.Runnable() && c != cmd.RootCmd {
+			p := strings.TrimPrefix(c.CommandPath(), "gotree ")
+			if !have[p] {
+				missing = append(missing, p)
+			}
+		}
+		for _, s := range c.Commands() {
+			walk(s)
+		}
+	}
+	walk(cmd.RootCmd)
+	sort.Strings(missing)
+	fmt.Fprintf(os.Stderr, "c19: runnable commands without a template: %s\n", strings.Join(missing, "; "))
 }
